@@ -86,10 +86,16 @@ pub fn compact(cells: &[u64]) -> Result<Vec<u64>, String> {
     current_cells.sort_unstable();
 
     // Compact until no more changes
-    // No re-sorting needed - parents maintain sorted order!
     let mut changed = true;
     while changed {
         changed = false;
+
+        // Siblings are only guaranteed to be adjacent among cells of the same resolution
+        // (base-cell IDs interleave with the quintant IDs of other faces), and a merged parent
+        // can land out of order or duplicate a cell that is already present
+        current_cells.sort_unstable_by_key(|&cell| (get_resolution(cell), cell));
+        current_cells.dedup();
+
         let mut result = Vec::new();
         let mut i = 0;
 
@@ -151,5 +157,6 @@ pub fn compact(cells: &[u64]) -> Result<Vec<u64>, String> {
         current_cells = result;
     }
 
+    current_cells.sort_unstable();
     Ok(current_cells)
 }
